@@ -203,7 +203,7 @@ def _vec_b(case):
 
 
 def _sibling_containment(s, u=None):
-    """sympy as oracle for the precondition of finding C05-F5: some node of the sympified expression has two non-atomic
+    """sympy as oracle for the class that D80 repaired (kept as a coverage statistic only, it excuses nothing): some node of the sympified expression has two non-atomic
     arguments a, b such that subs(b -> symbol) changes a (b is found algebraically inside a: c*x**2 in c*x**3, s in s + k,
     1/t in t + v).  sympy is not modelled in Coq; Lang.no_shared_cofactor_powers is the syntactic sub-class."""
     from sympy import sympify, Symbol, Dummy, preorder_traversal
@@ -647,8 +647,8 @@ def coq_lists(ctx, tag, defs, evals, shard_note=""):
 def compare_expr(ctx, cases, outs, tag):
     """-> (bad, notsame, chain): bad = {case index: [spelling indices whose real values differ from the Coq value of the string]};
     notsame = cases whose spellings do not all have the same Coq value at some point (a harness printer error, never a verdict);
-    chain = (case index, spelling index) whose layout relabels a variable `a` (pre: the left-hand side, multi: the doubly fed
-    input) while the spelling also mentions a user variable a_v1: violates the guard no_label_chain"""
+    chain = (case index, spelling index) in the multi-source layout whose doubly fed input `a` meets a user variable a_v1 in the
+    same operator: violates the guard no_label_chain (C01-D22b)"""
     bad, notsame, chain = {}, [], []
     shard = 40
     for s in range(0, len(cases), shard):
@@ -663,7 +663,7 @@ def compare_expr(ctx, cases, outs, tag):
                     per_point.setdefault(p, []).append(it)
             same.append(clist([clist(v) for v in per_point.values()]))
             for sp in c["spellings"]:
-                dup = {"pre": c["lhs"], "multi": c.get("u")}.get(sp.get("layout", "pair"))
+                dup = {"multi": c.get("u")}.get(sp.get("layout", "pair"))
                 gch.append(f"({cstr(dup or 'x')}, {cstr(sp['s'] if dup else '0')})")
         defs = (f"Definition cases : list (list item) := {clist(units)}.\n"
                 f"Definition same : list (list (list item)) := {clist(same)}.\n"
@@ -854,7 +854,7 @@ def check(ctx):
     # --- expr
     def chain_py(c, k):
         sp = c["spellings"][k]
-        dup = {"pre": c["lhs"], "multi": c.get("u")}.get(sp.get("layout", "pair"))
+        dup = {"multi": c.get("u")}.get(sp.get("layout", "pair"))
         ids = idents(tuple_ast(c["ast"]))
         return bool(dup) and dup in ids and (dup + "_v1") in ids
     def failed_spellings(o):
@@ -871,8 +871,7 @@ def check(ctx):
     crashed += cr
     for i in cr:
         fs = failed_spellings(outs[i])
-        gl = (["no_sibling_containment"] if i in gsh or (fs and all(outs[i][k].get("sib") for k in fs)) else []) + \
-             (["no_label_chain"] if fs and all(chain_py(cases[i], k) for k in fs) else [])
+        gl = ["no_label_chain"] if fs and all(chain_py(cases[i], k) for k in fs) else []
         if gl:
             guard_viol[i] = gl
     ie = [i for i in ie if i not in cr]
@@ -883,15 +882,14 @@ def check(ctx):
     for j, bad_sp in b.items():
         i = ie[j]
         bad_spec.append(i); bad_impl.append(i)
-        gl = (["no_sibling_containment"] if i in gsh or all(outs[i][k].get("sib") for k in bad_sp) else []) + \
-             (["no_label_chain"] if all((j, k) in chain for k in bad_sp) else [])
+        gl = ["no_label_chain"] if all((j, k) in chain for k in bad_sp) else []
         if gl:
             guard_viol[i] = gl
     n_eval = sum(len(B_POINTS[sp.get("layout", "pair")]) + 2 for i in ie for sp in cases[i]["spellings"])
     lay = {l: sum(1 for i in ie for sp in cases[i]["spellings"] if sp.get("layout", "pair") == l) for l in B_POINTS}
     ctx.note(f"expr: {len(ie)} expressions x 3 spellings, layouts {lay}, {n_eval} evaluations (2 direct + 2..4 generated-code per spelling); "
              f"mismatching cases {len(b)}, raised {len(cr)}; violating a guard: {sum(1 for i in guard_viol if cases[i]['kind'] == 'expr')} "
-             f"(Lang.no_shared_cofactor_powers false on {len(gsh)} expressions, sympy-oracle sibling containment on "
+             f"(repeated/contained sub-expressions, repaired by D80 and deciding: q*B^a + q*B^b in {len(gsh)} expressions, sibling containment per sympy in "
              f"{sum(1 for i in ie + cr if not isinstance(outs[i], dict) and any(x.get('sib') for x in outs[i]))})")
     # --- lhs
     il = [i for i in K("lhs") if i not in crashed]
